@@ -33,6 +33,15 @@ for d in sorted(glob.glob(os.path.join(os.path.dirname(__file__), "..", "seeded"
     final = outcomes(os.path.join(d, "checks.txt"))
     rows.append("| %s | `%s` %s | %s | %s | %s |" % (sid, ",".join(f.replace("funsor/", "") for f in files), str(meta.get("summary", "")).replace("|", "/").replace("\n", " ")[:110], confirm,
                                                   "; ".join(first) or "-", "; ".join(final) or "(not re-run)"))
-print("| seed | changed | confirmation (demo clean/patched, suite) | first run, checks as they were | final run, committed checks |")
-print("|------|---------|------------------------------------------|------------------|---------------|")
-print("\n".join(rows))
+table = "\n".join(["| seed | changed | confirmation (demo clean/patched, suite) | first run, checks as they were | final run, committed checks |",
+                   "|------|---------|------------------------------------------|------------------|---------------|"] + rows)
+
+if __name__ == "__main__":
+    import sys
+
+    if len(sys.argv) > 2 and sys.argv[1] == "--update":
+        txt = open(sys.argv[2]).read()
+        a, b = txt.index("<!-- SEED-TABLE-BEGIN -->") + len("<!-- SEED-TABLE-BEGIN -->"), txt.index("<!-- SEED-TABLE-END -->")
+        open(sys.argv[2], "w").write(txt[:a] + "\n" + table + "\n" + txt[b:])
+    else:
+        print(table)
